@@ -115,6 +115,61 @@ theorem gz_oversize_rejected (limit : Nat) (g : GSt) (comp out : Str) (tl : Nat)
 example : (gzRun 5 [([1, 2, 3], [([9, 9, 9], 1), ([9, 9, 9], 0)])] {}).rejected = true ∧
     (gzRun 5 [([1, 2, 3], [([9, 9, 9], 1), ([9, 9, 9], 0)])] {}).delivered = [[9, 9, 9]] := by decide
 
+/-! ## the configured options are the limits — for every value, `0` included
+
+`Raw` (C04/Model.lean) is what the application passes; `Raw.cfg` is how the code turns it into the limits of the machine.
+A configured `max_body_size` is taken literally (only an absent one falls back to the stream's `max_buffer_size`), so
+`max_body_size = 0` means "no request body is accepted". -/
+
+/-- a configured `max_body_size = n` is the default body limit, whatever `n` is -/
+theorem raw_body_limit_exact (r : Raw) (n : Nat) (h : r.maxBodySize = some n) : r.cfg.maxBody = n := by
+  simp [Raw.cfg, ifNotNone, h]
+
+/-- an absent `max_body_size` falls back to the stream's buffer size (itself `or 104857600`) -/
+theorem raw_body_limit_absent (r : Raw) (h : r.maxBodySize = none) :
+    r.cfg.maxBody = orDefault r.maxBufferSize 104857600 := by
+  simp [Raw.cfg, ifNotNone, h]
+
+/-- every request without a per-request override is handed at most the configured `max_body_size` -/
+theorem raw_delivered_le_configured (r : Raw) (n : Nat) (h : r.maxBodySize = some n) (segs : List Str) (i : Nat)
+    (hov : ∀ m, r.overrides[i]? ≠ some (some m)) :
+    dataLen i (run r.cfg init segs).out ≤ n := by
+  have hb := delivered_le_limit r.cfg segs i
+  have he : effLimit r.cfg i = n := by
+    unfold effLimit
+    have hc : r.cfg.overrides = r.overrides := rfl
+    rw [hc]
+    split
+    · next m hm => exact absurd hm (hov m)
+    · exact raw_body_limit_exact r n h
+  omega
+
+/-- `max_body_size = 0`: the application is handed no body byte at all -/
+theorem raw_zero_delivers_nothing (r : Raw) (h : r.maxBodySize = some 0) (segs : List Str) (i : Nat)
+    (hov : ∀ m, r.overrides[i]? ≠ some (some m)) :
+    dataLen i (run r.cfg init segs).out = 0 := by
+  have := raw_delivered_le_configured r 0 h segs i hov
+  omega
+
+/-- … and every declared non-empty body is refused under it -/
+theorem raw_zero_cl_rejected (h : Hdrs) (v : Str) (n : Nat)
+    (hcl : hGet h kContentLength = some v) (hv : clPick v = some v) (hn : parseInt v = some (n + 1)) :
+    bodyKind 0 h = none :=
+  cl_oversize_rejected 0 (n + 1) h v hcl hv hn (by omega)
+
+-- non-vacuity: `max_body_size = 0`, a 1-byte body ("POST / HTTP/1.1\nHost:x\nContent-Length:1\n\na") is answered 400 and closed;
+-- the same stream under an absent limit is served
+example : (run ({ maxBodySize := some 0 } : Raw).cfg init
+    [[80, 32, 47, 32, 72, 84, 84, 80, 47, 49, 46, 49, 10, 72, 111, 115, 116, 58, 120, 10, 67, 111, 110, 116, 101, 110, 116, 45,
+      76, 101, 110, 103, 116, 104, 58, 49, 10, 10, 97]]).out = [Ev.connClose, Ev.closed, Ev.w400,
+        Ev.req [80] [47] [72, 84, 84, 80, 47, 49, 46, 49] [([72, 111, 115, 116], [120]),
+          ([67, 111, 110, 116, 101, 110, 116, 45, 76, 101, 110, 103, 116, 104], [49])]] := by decide
+example : (run ({ } : Raw).cfg init
+    [[80, 32, 47, 32, 72, 84, 84, 80, 47, 49, 46, 49, 10, 72, 111, 115, 116, 58, 120, 10, 67, 111, 110, 116, 101, 110, 116, 45,
+      76, 101, 110, 103, 116, 104, 58, 49, 10, 10, 97]]).out.head? = some Ev.w200 := by decide
+example : ({ maxHeaderSize := some 0, maxBodySize := some 0, maxBufferSize := some 0 } : Raw).cfg
+    = { maxHeader := 65536, maxBody := 0 } := by decide
+
 /-! ## requests within the limits are unaffected
 
 Raising the limits (header block, default body limit, per-request overrides) does not change the run of a stream that
